@@ -37,8 +37,20 @@ CATEGORIES: Dict[str, Tuple[str, Optional[str]]] = {
     "sc": ("", None),
     "aa": ("", None),
     "ug": ("", None),
+    # the other eight kinds of data objects of a DIAG-DATA-DICTIONARY-SPEC (all governed by NOT-INHERITED-DOPS);
+    # they refer to the DOP and the structure of the same layer and name, so they need "dop" and "struct"
+    "sfield": ("_sf", "dops"),
+    "eopfield": ("_ef", "dops"),
+    "dlfield": ("_lf", "dops"),
+    "emfield": ("_mf", "dops"),
+    "mux": ("_mx", "dops"),
+    "dtcdop": ("_dt", "dops"),
+    "envdata": ("_ed", "dops"),
+    "envdesc": ("_dd", "dops"),
 }
-ALL_CATS = list(CATEGORIES)
+EXTRA_DDDS_CATS = ["sfield", "eopfield", "dlfield", "emfield", "mux", "dtcdop", "envdata", "envdesc"]
+FULL_CATS = list(CATEGORIES)
+ALL_CATS = [c for c in CATEGORIES if c not in EXTRA_DDDS_CATS]  # the core profile
 EXCLUDABLE_CATS = [c for c, (_, lst) in CATEGORIES.items() if lst is not None]
 REFERABLE_CATS = ["svc", "job", "var"]  # categories with a *-REF placement (kind 2)
 EXCL_LISTS = ["comms", "dops", "tables", "gnrs", "vars"]
@@ -110,6 +122,31 @@ def _objects(lname: str, lidx: int, ltype: str, names_: List[str], row: List[int
             spec["dops"].append({"kind": "table", "name": spec_name("table", nm), "long_name": mk("table"),
                                  "key_dop": spec_name("dop", nm) if "dop" in cats else None,
                                  "rows": [{"name": "r", "key": 1}]})
+        st, dp = spec_name("struct", nm), spec_name("dop", nm)
+        if "sfield" in cats:
+            spec["dops"].append({"kind": "sfield", "name": spec_name("sfield", nm), "long_name": mk("sfield"), "of": st,
+                                 "n": 2, "item_size": 1})
+        if "eopfield" in cats:
+            spec["dops"].append({"kind": "eopfield", "name": spec_name("eopfield", nm), "long_name": mk("eopfield"), "of": st})
+        if "dlfield" in cats:
+            spec["dops"].append({"kind": "dlfield", "name": spec_name("dlfield", nm), "long_name": mk("dlfield"), "of": st,
+                                 "offset": 1, "count": {"byte": 0, "dop": dp}})
+        if "emfield" in cats:
+            spec["dops"].append({"kind": "emfield", "name": spec_name("emfield", nm), "long_name": mk("emfield"), "of": st,
+                                 "end_dop": dp, "term": 255})
+        if "mux" in cats:
+            spec["dops"].append({"kind": "mux", "name": spec_name("mux", nm), "long_name": mk("mux"), "byte": 1,
+                                 "key": {"byte": 0, "dop": dp}, "cases": [{"name": "c1", "lo": 1, "hi": 1, "struct": st}]})
+        if "dtcdop" in cats:
+            spec["dops"].append({"kind": "dtcdop", "name": spec_name("dtcdop", nm), "long_name": mk("dtcdop"),
+                                 "dct": {"k": "STD", "base": "A_UINT32", "bits": 24},
+                                 "dtcs": [{"name": f"dtc_{nm}", "code": 0x100 + ni}]})
+        if "envdata" in cats:
+            spec["dops"].append({"kind": "envdata", "name": spec_name("envdata", nm), "long_name": mk("envdata"),
+                                 "params": [_cc("c", 0x50 + ni, 0)], "all": True})
+        if "envdesc" in cats:
+            spec["dops"].append({"kind": "envdesc", "name": spec_name("envdesc", nm), "long_name": mk("envdesc"), "param": "dtc",
+                                 "envdatas": [spec_name("envdata", nm)]})
         if "svc" in cats:
             rq = "rq_" + nm
             b = request_bytes(ni, 0xEE if is_lib else lidx)
